@@ -18,8 +18,17 @@ macro_rules! cfg {
     }};
 }
 
+macro_rules! cfg_huge {
+    ($run:expr, $fam:ident, $n:literal, $z:ty) => {{
+        // the widest configurations of the quantifier (8192 bits): dense and sparse values, small plan
+        $run.explore(&t::$fam::u::<$n, $z>(), &plans::hugeify(plans::arith::<$fam::U<$n>>(Tier::Quick), usize::MAX, usize::MAX));
+        $run.explore(&t::$fam::i::<$n, $z>(), &plans::hugeify(plans::arith::<$fam::I<$n>>(Tier::Quick), usize::MAX, usize::MAX));
+    }};
+}
+
 fn main() {
     let mut run = Run::from_args("C01", "c01");
     vcore::core_configs!(cfg, run);
+    vcore::huge_configs!(cfg_huge, run);
     std::process::exit(run.finish());
 }
